@@ -23,10 +23,13 @@ BUILDERS = ["tcp", "udpflow", "unicast", "broadcast", "icmp", "frag", "dnshost",
 
 def build(kind, r, raw):
     """a small program whose IP-level builder has raw = raw; all other choices drawn from r"""
-    kw = {"raw": True} if raw else {}
+    # raw mode is a truth value however it is written: true, 1, or any other non-zero integer
     a, b = rand_ip(r), rand_ip(r)
     pa, pb = rand_port(r), rand_port(r)
     pl = [STR(rand_payload(r, 60))]
+    # raw mode is a truth value however it is written: true, 1, or any other non-zero integer
+    spelling = r.choice([True, True, gen.INT(1), gen.INT(256), gen.INT(0x10000), gen.INT(2**32), gen.INT(255)])   # (drawn for both variants)
+    kw = {"raw": spelling} if raw else {}
     st = [Import("ipv4"), Import("dns"), Import("vxlan"), Import("gre"), Import("erspan1"), Import("erspan2"), Import("eth")]
     if kind == "tcp":
         st += [Let("t", Call("ipv4::tcp::flow", SOCK(a, pa), SOCK(b, pb), **kw)), Do(Call("t.open")),
